@@ -40,7 +40,19 @@ pub fn run(inp: &str, outp: &str) {
             }
         };
         let mut rng = vh_core::Rng::new(seed ^ ((inst.inst as u64) << 20));
-        let r = replay_instance(&inst, &parts, &mut rng);
+        // a panic of the code under test outside the individually guarded calls is data, not a tool error
+        let r = match vh_core::catch(|| replay_instance(&inst, &parts, &mut rng)) {
+            Ok(r) => r,
+            Err(p) => {
+                let mut pv = vec![];
+                for (prop, on) in [("C01", parts.c01), ("C04", parts.c04), ("C13", parts.c13)] {
+                    if on {
+                        pv.push(json!({"prop": prop, "key": "panic:replay", "what": format!("the code under test panicked while instance {} was replayed: {p}", inst.name), "detail": {"topo": inst.name}}));
+                    }
+                }
+                json!({"inst": inst.inst, "name": inst.name, "pv": pv, "drift": [], "counts": {}, "pairs": []})
+            }
+        };
         out.write(&r);
     }
     out.finish();
@@ -106,10 +118,11 @@ fn localise(w: &World, segs: &HashMap<u32, RealSeg>, ideal: &HashMap<u32, RealSe
     if beacon {
         comps.push("beacon");
     }
-    match concretize(w, segs, &rp.pieces, 1, 1, true) {
-        Ok(exp) if exp == *offered => {}
-        Ok(_) => comps.push("combinator"),
-        Err(_) => comps.push("unmatched"),
+    // the offered path must be one of the reference candidates with this interface sequence
+    let mut cands: Vec<&Vec<RefPiece>> = vec![&rp.pieces];
+    cands.extend(rp.alts.iter());
+    if !cands.iter().any(|ps| matches!(concretize(w, segs, ps, 1, 1, true), Ok(exp) if exp == *offered)) {
+        comps.push("combinator");
     }
     if let Ok(m) = concretize(w, ideal, &rp.pieces, 1, 1, true) {
         let delivered = world::encode_path(&m)
